@@ -36,6 +36,16 @@ Fixpoint c15_spec_trace (sT aT storage : N) (nch : nat) (live : list c15_slot)
       | Some _, ObsFreed => c15_spec_trace sT aT storage nch (c15_remove_nth i live) ops' obs'
       | _, _ => false
       end
+  | OpFreeN i n :: ops', o :: obs' =>            (* a count of 0 releases nothing: the block stays live *)
+      match nth_error live i, o with
+      | Some _, ObsNoop => (n =? 0) && c15_spec_trace sT aT storage nch live ops' obs'
+      | Some _, ObsFreed => (n =? 1) && c15_spec_trace sT aT storage nch (c15_remove_nth i live) ops' obs'
+      | _, _ => false
+      end
+  | OpFreeInvalid _ :: ops', o :: obs' =>        (* refused with an allocation error, nothing changes *)
+      match o with ObsBadAlloc => c15_spec_trace sT aT storage nch live ops' obs' | _ => false end
+  | OpCopy _ :: ops', o :: obs' =>               (* a copy owns separate storage; the original and its live blocks are untouched *)
+      match o with ObsCopyOk => c15_spec_trace sT aT storage nch live ops' obs' | _ => false end
   | _, _ => false
   end.
 
@@ -74,8 +84,21 @@ Fixpoint c15_spec_dbg_trace (page sT aT : N) (nlive : nat) (ops : list c15_op) (
       | DObsFreed => (i <? nlive)%nat && c15_spec_dbg_trace page sT aT (pred nlive) ops' obs'
       | _ => false
       end
+  | OpFreeN i n :: ops', o :: obs' =>            (* caller-supplied count: released, or the mismatch is detected (abort ends the trace) *)
+      match o, obs' with
+      | DObsFreed, _ => (i <? nlive)%nat && c15_spec_dbg_trace page sT aT (pred nlive) ops' obs'
+      | DObsAbort DbgSize, [] => negb (n =? 0)
+      | _, _ => false
+      end
+  | OpFreeInvalid _ :: _, [DObsAbort DbgNotFound] => true      (* "only free memory which was allocated with this allocator" *)
+  | OpFreeBad i k :: _, [DObsAbort e] =>                       (* wrong type / pointer / double free: detected, never released *)
+      match e with DbgLost => false | _ => (i <? nlive)%nat || (k =? 2) end
   | _, _ => false
   end.
+
+(* destructor of the manager: all mappings returned; aborts iff blocks are still in use *)
+Definition c15_spec_dbg_destroy (nlive : nat) (released : nat) (aborted : bool) : bool :=
+  Nat.eqb released nlive && Bool.eqb aborted (negb (Nat.eqb nlive 0)).
 
 (* ---- isAligned *)
 Definition c15_spec_isAligned (p align : N) : bool := p mod align =? 0.
